@@ -1,6 +1,1330 @@
-//! C06 monitor (not built yet)
-use vcore::{Args, Report};
+//! C06 — packet protection round-trips and rejects any modified packet.
+//!
+//! Every case performs a real in-memory rustls QUIC handshake (pktkeys.rs), builds packets with the
+//! real `PacketWriter::{new_long,new_short}` (base writer or the qevent wrapper) +
+//! `encrypt_and_protect_packet`, and recovers them through the real receive path
+//! `PacketReader` -> `CipherPacket::decrypt_{long,short}_packet` (+ `OneRttPacketKeys::get_remote`).
+//!
+//! Oracles (all derived from RFC 9000 §17 / RFC 9001 §5, not from the code):
+//!  * roundtrip: type, DCID, SCID, token, spin bit, decoded pn, body bytes and total size equal what was assembled;
+//!  * wire: an independent opener (rustls keys used directly) removes header protection and opens the AEAD of
+//!    the built packet: reserved bits 0, pn length / truncated pn / key phase as assembled, body equal;
+//!  * flip: every single-bit modification (all bits below 400 bytes, else all header+pn+sample+tag bits and
+//!    256 random payload bits) must never yield `Some(Ok(_))` from any packet of the datagram;
+//!  * wrong-pn: same packet, pn context that reconstructs another number => never Ok;
+//!  * wrong-key: other direction's keys, another connection's keys, next-generation keys with the current
+//!    phase bit => never Ok;
+//!  * keyupdate: both phases round-trip across `update()`, reordered old-phase packets are still recovered
+//!    before `phase_out`, rejected after it.
+use std::sync::Arc;
 
-pub fn run(_args: &Args, rep: &mut Report) {
-    rep.inconclusive("monitor not built yet");
+use bytes::{BufMut, Bytes, BytesMut};
+use qbase::{
+    cid::ConnectionId,
+    frame::{CryptoFrame, PingFrame, StreamFrame},
+    packet::{
+        AssemblePacket, DataHeader, GetDcid, GetScid, Packet, PacketNumber, PacketReader, PacketWriter,
+        header::{LongHeaderBuilder, OneRttHeader, long},
+        io::{Packages, PadTo20},
+        keys::{ArcOneRttPacketKeys, DirectionalKeys},
+        number::InvalidPacketNumber,
+        signal::{KeyPhaseBit, SpinBit},
+    },
+    varint::VarInt,
+};
+use qinterface::component::route::CipherPacket;
+use qrecovery::journal::ArcRcvdJournal;
+use rustls::quic::HeaderProtectionKey;
+use serde_json::{Value, json};
+use vcore::{Args, Report, Rng};
+
+use crate::pktkeys::{self, Handshaken};
+
+#[derive(Clone, Copy, Debug, PartialEq, Eq)]
+pub enum PType {
+    Initial,
+    ZeroRtt,
+    Handshake,
+    OneRtt,
+}
+
+impl PType {
+    pub fn name(self) -> &'static str {
+        match self {
+            PType::Initial => "initial",
+            PType::ZeroRtt => "0rtt",
+            PType::Handshake => "handshake",
+            PType::OneRtt => "1rtt",
+        }
+    }
+    fn is_long(self) -> bool {
+        self != PType::OneRtt
+    }
+}
+
+/// What one packet looks like before protection.
+#[derive(Clone, Debug)]
+pub struct Spec {
+    pub ptype: PType,
+    pub dcid: Vec<u8>,
+    pub scid: Vec<u8>,
+    pub token: Vec<u8>,
+    pub spin: bool,
+    pub pn: u64,
+    pub width: usize,
+    /// receiver's next expected pn (largest received + 1)
+    pub expected: u64,
+    /// exact encoding used (None: PacketNumber::encode(pn, acked))
+    pub acked: Option<u64>,
+    pub body: Vec<u8>,
+    pub slack: usize,
+    /// 0 = base writer + raw bytes, 1 = qevent wrapper + real frames + PadTo20
+    pub mode: u8,
+}
+
+pub fn encode_width(pn: u64, width: usize) -> PacketNumber {
+    match width {
+        1 => PacketNumber::U8(pn as u8),
+        2 => PacketNumber::U16(pn as u16),
+        3 => PacketNumber::U24((pn & 0xff_ffff) as u32),
+        _ => PacketNumber::U32(pn as u32),
+    }
+}
+
+pub fn payload_offset(ptype: PType, dcid: usize, scid: usize, token: usize) -> usize {
+    fn varint_len(v: usize) -> usize {
+        match v {
+            0..=63 => 1,
+            64..=16383 => 2,
+            16384..=1_073_741_823 => 4,
+            _ => 8,
+        }
+    }
+    match ptype {
+        PType::OneRtt => 1 + dcid,
+        PType::Initial => 1 + 4 + 1 + dcid + 1 + scid + varint_len(token) + token + 2,
+        _ => 1 + 4 + 1 + dcid + 1 + scid + 2,
+    }
+}
+
+pub struct Built {
+    pub bytes: Vec<u8>,
+    pub po: usize,
+    pub pn_len: usize,
+    pub body: Vec<u8>,
+}
+
+/// Build + protect one packet with the real writers.
+pub fn build(spec: &Spec, keys: DirectionalKeys, phase: KeyPhaseBit) -> Result<Built, String> {
+    let po = payload_offset(spec.ptype, spec.dcid.len(), spec.scid.len(), spec.token.len());
+    let enc = match spec.acked {
+        Some(a) => PacketNumber::encode(spec.pn, a),
+        None => encode_width(spec.pn, spec.width),
+    };
+    if enc.size() != spec.width {
+        return Err(format!("harness: encode({}, {:?}) gave width {} not {}", spec.pn, spec.acked, enc.size(), spec.width));
+    }
+    // frame mode needs room for the frame headers around the data
+    let need = po + spec.width + spec.body.len().max(4usize.saturating_sub(spec.width)) + 16 + if spec.mode == 1 { 24 } else { 0 };
+    let mut buf = vec![0u8; need + spec.slack];
+    let dcid = ConnectionId::from_slice(&spec.dcid);
+    let scid = ConnectionId::from_slice(&spec.scid);
+    let pnp = (spec.pn, enc);
+    let spin = if spec.spin { SpinBit::One } else { SpinBit::Zero };
+    let (size, body) = if spec.mode == 0 {
+        let mut w = match spec.ptype {
+            PType::Initial => PacketWriter::new_long(&LongHeaderBuilder::with_cid(dcid, scid).initial(spec.token.clone()), &mut buf, pnp, keys),
+            PType::ZeroRtt => PacketWriter::new_long(&LongHeaderBuilder::with_cid(dcid, scid).zero_rtt(), &mut buf, pnp, keys),
+            PType::Handshake => PacketWriter::new_long(&LongHeaderBuilder::with_cid(dcid, scid).handshake(), &mut buf, pnp, keys),
+            PType::OneRtt => PacketWriter::new_short(&OneRttHeader::new(spin, dcid), &mut buf, pnp, keys, phase),
+        }
+        .map_err(|s| format!("harness: writer refused buffer: {s:?}"))?;
+        w.put_slice(&spec.body);
+        if w.payload_len() + w.tag_len() < 20 {
+            let n = 20 - w.payload_len() - w.tag_len();
+            w.put_bytes(0, n);
+        }
+        let body = w.buffer()[po + spec.width..po + w.payload_len()].to_vec();
+        if body[..spec.body.len()] != spec.body[..] {
+            return Err("harness: writer buffer does not hold the bytes put".into());
+        }
+        let (size, info) = w.encrypt_and_protect_packet();
+        if info.packet_number() != spec.pn {
+            return Err("harness: PacketInfo pn differs".into());
+        }
+        (size, body)
+    } else {
+        use qevent::packet::PacketWriter as QW;
+        let mut w = match spec.ptype {
+            PType::Initial => QW::new_long(&LongHeaderBuilder::with_cid(dcid, scid).initial(spec.token.clone()), &mut buf, pnp, keys),
+            PType::ZeroRtt => QW::new_long(&LongHeaderBuilder::with_cid(dcid, scid).zero_rtt(), &mut buf, pnp, keys),
+            PType::Handshake => QW::new_long(&LongHeaderBuilder::with_cid(dcid, scid).handshake(), &mut buf, pnp, keys),
+            PType::OneRtt => QW::new_short(&OneRttHeader::new(spin, dcid), &mut buf, pnp, keys, phase),
+        }
+        .map_err(|s| format!("harness: writer refused buffer: {s:?}"))?;
+        // real frames carrying the body bytes as data, padded like production (`PadTo20`)
+        let data = Bytes::from(spec.body.clone());
+        let overhead = 1 + 8 + 8 + 4;
+        let dlen = data.len().min(w.remaining_mut().saturating_sub(overhead));
+        let data = data.slice(..dlen);
+        let r = if spec.ptype == PType::ZeroRtt {
+            let sid = qbase::sid::StreamId::new(qbase::role::Role::Client, qbase::sid::Dir::Bi, 0);
+            let mut f = StreamFrame::new(sid, 5, dlen);
+            f.set_len_bit(qbase::frame::Len::Explicit);
+            w.assemble_packet(&mut Packages((PingFrame, (f, data), PadTo20)))
+        } else {
+            let f = CryptoFrame::new(VarInt::from_u32(7), VarInt::try_from(dlen).unwrap());
+            w.assemble_packet(&mut Packages((PingFrame, (f, data), PadTo20)))
+        };
+        r.map_err(|s| format!("harness: assemble_packet refused: {s:?}"))?;
+        let body = w.buffer()[po + spec.width..po + w.payload_len()].to_vec();
+        let (size, _info) = w.encrypt_and_protect_packet();
+        (size, body)
+    };
+    buf.truncate(size);
+    Ok(Built { bytes: buf, po, pn_len: spec.width, body })
+}
+
+/// `build` with panic capture: a panic of the writer is a violation, a refusal is harness trouble.
+fn build_g(cx: &mut Ctx, spec: &Spec, keys: DirectionalKeys, phase: KeyPhaseBit) -> Result<Built, ()> {
+    match vcore::panics::catch(|| build(spec, keys, phase)) {
+        Ok(Ok(b)) => Ok(b),
+        Ok(Err(e)) => {
+            cx.rep.inconclusive(e);
+            Err(())
+        }
+        Err(p) => {
+            let loc = vcore::panics::short_location(&p.location);
+            cx.violation(
+                format!("C06.panic.build:{loc}"),
+                format!("building a {} packet panicked: {} at {}", spec.ptype.name(), p.message, loc),
+                json!({"spec": format!("{spec:?}")}),
+            );
+            Err(())
+        }
+    }
+}
+
+/// Keys a receiver holds.
+#[derive(Clone, Default)]
+pub struct Rx {
+    pub dcid_len: usize,
+    pub initial: Option<DirectionalKeys>,
+    pub zero_rtt: Option<DirectionalKeys>,
+    pub handshake: Option<DirectionalKeys>,
+    pub one_rtt: Option<(Arc<dyn HeaderProtectionKey>, ArcOneRttPacketKeys)>,
+}
+
+pub enum Decoder<'a> {
+    /// the production decoder: `ArcRcvdJournal::decode_pn`
+    Journal(&'a ArcRcvdJournal),
+    /// `pn.decode(expected)` as the journal does, for numbers too large to materialise in a journal
+    Expected(u64),
+    /// a context that reconstructs exactly this number
+    Fixed(u64),
+}
+
+impl Decoder<'_> {
+    fn run(&self, p: PacketNumber) -> Result<u64, InvalidPacketNumber> {
+        match self {
+            Decoder::Journal(j) => j.decode_pn(p),
+            Decoder::Expected(e) => Ok(p.decode(*e)),
+            Decoder::Fixed(v) => Ok(*v),
+        }
+    }
+}
+
+#[derive(Debug)]
+pub struct Plain {
+    pub ptype: PType,
+    pub dcid: Vec<u8>,
+    pub scid: Vec<u8>,
+    pub token: Vec<u8>,
+    pub spin: bool,
+    pub pn: u64,
+    pub body: Bytes,
+    pub size: usize,
+}
+
+#[derive(Debug)]
+pub enum Outcome {
+    Ok(Plain),
+    /// `None`: silently dropped
+    Dropped,
+    /// `Some(Err(_))`: connection error
+    ConnError(String),
+    ParseErr(String),
+    /// Retry / Version Negotiation: carries no frames
+    NoFrames,
+    KeyUnavailable,
+}
+
+/// The receive path: PacketReader -> (dispatch by parsed type, as `RcvdPacketQueue::deliver` +
+/// `*Space::decrypt_packet` do) -> CipherPacket::decrypt_*.
+pub fn receive(datagram: &[u8], rx: &Rx, dec: &Decoder) -> Vec<Outcome> {
+    let mut outs = vec![];
+    for item in PacketReader::new(BytesMut::from(datagram), rx.dcid_len) {
+        let pkt = match item {
+            Err(e) => {
+                outs.push(Outcome::ParseErr(e.to_string()));
+                continue;
+            }
+            Ok(Packet::VN(_)) | Ok(Packet::Retry(_)) => {
+                outs.push(Outcome::NoFrames);
+                continue;
+            }
+            Ok(Packet::Data(p)) => p,
+        };
+        macro_rules! long {
+            ($h:expr, $keys:expr, $ty:expr, $tok:expr) => {{
+                let h = $h;
+                match $keys {
+                    None => Outcome::KeyUnavailable,
+                    Some(k) => match CipherPacket::new(h, pkt.bytes, pkt.offset).decrypt_long_packet(k.header.as_ref(), k.packet.as_ref(), |p| dec.run(p)) {
+                        None => Outcome::Dropped,
+                        Some(Err(e)) => Outcome::ConnError(e.to_string()),
+                        Some(Ok(pl)) => Outcome::Ok(Plain {
+                            ptype: $ty,
+                            dcid: pl.dcid().to_vec(),
+                            scid: pl.scid().to_vec(),
+                            token: $tok(&pl),
+                            spin: false,
+                            pn: pl.pn(),
+                            body: pl.body(),
+                            size: pl.size(),
+                        }),
+                    },
+                }
+            }};
+        }
+        let o = match pkt.header {
+            DataHeader::Long(long::DataHeader::Initial(h)) => {
+                long!(h, &rx.initial, PType::Initial, |pl: &qinterface::component::route::PlainPacket<long::InitialHeader>| pl.token().clone())
+            }
+            DataHeader::Long(long::DataHeader::ZeroRtt(h)) => {
+                long!(h, &rx.zero_rtt, PType::ZeroRtt, |_: &qinterface::component::route::PlainPacket<long::ZeroRttHeader>| vec![])
+            }
+            DataHeader::Long(long::DataHeader::Handshake(h)) => {
+                long!(h, &rx.handshake, PType::Handshake, |_: &qinterface::component::route::PlainPacket<long::HandshakeHeader>| vec![])
+            }
+            DataHeader::Short(h) => match &rx.one_rtt {
+                None => Outcome::KeyUnavailable,
+                Some((hpk, pk)) => match CipherPacket::new(h, pkt.bytes, pkt.offset).decrypt_short_packet(hpk.as_ref(), pk, |p| dec.run(p)) {
+                    None => Outcome::Dropped,
+                    Some(Err(e)) => Outcome::ConnError(e.to_string()),
+                    Some(Ok(pl)) => Outcome::Ok(Plain {
+                        ptype: PType::OneRtt,
+                        dcid: pl.dcid().to_vec(),
+                        scid: vec![],
+                        token: vec![],
+                        spin: pl.spin() == SpinBit::One,
+                        pn: pl.pn(),
+                        body: pl.body(),
+                        size: pl.size(),
+                    }),
+                },
+            },
+        };
+        outs.push(o);
+    }
+    outs
+}
+
+/// Independent opener: rustls keys used directly on the wire image (RFC 9001 §5.3/§5.4).
+/// Returns (first byte after unmasking, pn length, truncated pn, plaintext body).
+pub fn ref_open(bytes: &[u8], po: usize, keys: &DirectionalKeys, pn: u64) -> Result<(u8, usize, u64, Vec<u8>), String> {
+    let mut b = bytes.to_vec();
+    if b.len() < po + 4 + keys.header.sample_len() {
+        return Err("too short to sample".into());
+    }
+    {
+        let (head, rest) = b.split_at_mut(po);
+        let (pnbuf, sample) = rest.split_at_mut(4);
+        let sl = keys.header.sample_len();
+        keys.header.decrypt_in_place(&sample[..sl], &mut head[0], pnbuf).map_err(|e| format!("hp: {e}"))?;
+    }
+    let first = b[0];
+    let pn_len = (first & 3) as usize + 1;
+    let mut trunc = 0u64;
+    for k in 0..pn_len {
+        trunc = trunc << 8 | b[po + k] as u64;
+    }
+    let (aad, payload) = b.split_at_mut(po + pn_len);
+    let plain = keys.packet.decrypt_in_place(pn, aad, payload).map_err(|e| format!("aead: {e}"))?;
+    Ok((first, pn_len, trunc, plain.to_vec()))
+}
+
+/// Independent sealer: RFC 9001 §5.3 (AEAD over header||pn as AAD) and §5.4 (header protection) with the
+/// rustls keys used directly.  `head` = unprotected header bytes up to and including the pn field.
+pub fn ref_seal(head: &[u8], po: usize, body: &[u8], keys: &DirectionalKeys, pn: u64) -> Result<Vec<u8>, String> {
+    let pn_len = head.len() - po;
+    let mut pkt = head.to_vec();
+    let mut payload = body.to_vec();
+    let tag = keys.packet.encrypt_in_place(pn, &pkt, &mut payload).map_err(|e| format!("seal: {e}"))?;
+    pkt.extend_from_slice(&payload);
+    pkt.extend_from_slice(tag.as_ref());
+    let sl = keys.header.sample_len();
+    if pkt.len() < po + 4 + sl {
+        return Err("too short to sample".into());
+    }
+    let (h, rest) = pkt.split_at_mut(po);
+    let (pnbuf, sample) = rest.split_at_mut(4);
+    keys.header.encrypt_in_place(&sample[..sl], &mut h[0], &mut pnbuf[..pn_len]).map_err(|e| format!("hp: {e}"))?;
+    Ok(pkt)
+}
+
+/// A sender that sets reserved bits but authenticates correctly (RFC 9000 §17.2/§17.3.1: MUST be treated as
+/// PROTOCOL_VIOLATION, never processed), and the bit-exact comparison of the library's wire image with the
+/// independent sealer's.
+fn reseal_checks(cx: &mut Ctx, tag: &str, spec: &Spec, b: &Built, tx_keys: &DirectionalKeys, rx: &Rx, dec: &Decoder) {
+    let t = spec.ptype.name();
+    let Ok((first, pn_len, _, body)) = ref_open(&b.bytes, b.po, tx_keys, spec.pn) else { return };
+    // unprotected header: unmasked first byte, clear header bytes, unmasked pn bytes
+    let mut clear = b.bytes.clone();
+    {
+        let (h, rest) = clear.split_at_mut(b.po);
+        let (pnbuf, sample) = rest.split_at_mut(4);
+        let sl = tx_keys.header.sample_len();
+        if tx_keys.header.decrypt_in_place(&sample[..sl], &mut h[0], pnbuf).is_err() {
+            return;
+        }
+    }
+    let mut head = clear[..b.po + pn_len].to_vec();
+    debug_assert_eq!(head[0], first);
+    match ref_seal(&head, b.po, &body, tx_keys, spec.pn) {
+        Ok(again) => {
+            if again != b.bytes {
+                let at = again.iter().zip(&b.bytes).position(|(x, y)| x != y).unwrap_or(again.len().min(b.bytes.len()));
+                cx.violation(
+                    format!("C06.wire.{t}:reseal-differs"),
+                    format!("{tag}: sealing the same header/pn/body with rustls keys gives a different wire image (first difference at byte {at} of {})", b.bytes.len()),
+                    json!({"built": vcore::hex(&b.bytes), "resealed": vcore::hex(&again)}),
+                );
+                return;
+            }
+            cx.rep.count("wire_images_equal_to_independent_sealer");
+        }
+        Err(_) => return,
+    }
+    let masks: [u8; 3] = if spec.ptype.is_long() { [0x04, 0x08, 0x0c] } else { [0x08, 0x10, 0x18] };
+    for m in masks {
+        head[0] = first | m;
+        let Ok(pkt) = ref_seal(&head, b.po, &body, tx_keys, spec.pn) else { continue };
+        let outs = receive_guarded(cx, "reserved-bits", spec.ptype, &pkt, rx, dec);
+        for o in &outs {
+            match o {
+                Outcome::Ok(_) => cx.violation(
+                    format!("C06.reserved-bits.{t}:accepted"),
+                    format!("{tag}: authentic packet with reserved bits {m:#04x} set was delivered instead of PROTOCOL_VIOLATION"),
+                    json!({"datagram": vcore::hex(&pkt), "mask": m}),
+                ),
+                Outcome::ConnError(_) => cx.rep.count("reserved_bits_packets_rejected_as_connection_error"),
+                _ => cx.rep.count("reserved_bits_packets_dropped"),
+            }
+        }
+        cx.rep.count("reserved_bits_packets_presented");
+    }
+}
+
+fn region(ptype: PType, po: usize, pn_len: usize, len: usize, byte: usize) -> &'static str {
+    if byte == 0 {
+        "first-byte"
+    } else if byte >= len - 16 {
+        "tag"
+    } else if byte >= po + pn_len {
+        "payload"
+    } else if byte >= po {
+        "pn"
+    } else if ptype.is_long() {
+        if byte < 5 {
+            "version"
+        } else if byte >= po - 2 {
+            "length"
+        } else {
+            "cids-token"
+        }
+    } else {
+        "dcid"
+    }
+}
+
+/// Strata of a case: a fixed pseudo-random function of the global case index (so every shard count and
+/// every seed walks the same strata, and a replay needs only the index).
+#[derive(Clone, Copy, Debug)]
+struct Strata {
+    kind: u64,
+    dcid_len: usize,
+    scid_len: usize,
+    token_len: usize,
+    width: usize,
+    suite: usize,
+    updates: u64,
+    production_like: bool,
+}
+
+fn strata(idx: u64) -> Strata {
+    let m = Rng::new(idx.wrapping_mul(0x9e3779b97f4a7c15) ^ 0xc06c06).next_u64() >> 8;
+    Strata {
+        kind: m % 20,
+        dcid_len: (m / 20 % 21) as usize,
+        scid_len: (m / 420 % 21) as usize,
+        token_len: TOKEN_LENS[(m / 8820 % 5) as usize],
+        width: 1 + (m / 44100 % 4) as usize,
+        suite: (m / 176400 % 3) as usize,
+        updates: [0u64, 0, 1, 2, 3, 1][(m / 529200 % 6) as usize],
+        production_like: m / 3175200 % 2 == 1,
+    }
+}
+
+struct Ctx<'r> {
+    st: Strata,
+    rep: &'r mut Report,
+    idx: u64,
+    case_seed: u64,
+    thorough: bool,
+    strict_reserved: bool,
+}
+
+impl Ctx<'_> {
+    fn replay(&self, extra: Value) -> Value {
+        json!({"kind": "c06", "idx": self.idx, "case_seed": self.case_seed, "thorough": self.thorough, "detail": extra})
+    }
+    fn violation(&mut self, sig: String, what: String, extra: Value) {
+        let r = self.replay(extra);
+        self.rep.violation(sig, what, r);
+    }
+}
+
+const PARSER_FILES: [&str; 4] = ["qbase/src/packet/io.rs", "qbase/src/packet/header", "qbase/src/cid", "qbase/src/packet/type"];
+
+/// receive() with panic capture. Parser panics (before any key is touched) on corrupted headers are
+/// C03's subject (decoder robustness): counted, the packet was not delivered.  Panics elsewhere are C06's.
+fn receive_guarded(cx: &mut Ctx, what: &str, ptype: PType, datagram: &[u8], rx: &Rx, dec: &Decoder) -> Vec<Outcome> {
+    match vcore::panics::catch(|| receive(datagram, rx, dec)) {
+        Ok(v) => v,
+        Err(p) => {
+            let loc = vcore::panics::short_location(&p.location);
+            if PARSER_FILES.iter().any(|f| loc.contains(f)) && what != "roundtrip" {
+                cx.rep.count("modified_packet_panics_in_header_parser(C03 scope)");
+                cx.rep.set("parser_panic_locations", vcore::fnv_str(&loc));
+            } else {
+                cx.violation(
+                    format!("C06.panic.{}:{}", what, loc),
+                    format!("{} packet, {}: receive path panicked: {} at {}", ptype.name(), what, p.message, loc),
+                    json!({"datagram": vcore::hex(datagram)}),
+                );
+            }
+            vec![]
+        }
+    }
+}
+
+/// Round-trip of an unmodified packet; returns true when delivered and equal.
+fn check_roundtrip(cx: &mut Ctx, tag: &str, spec: &Spec, b: &Built, rx: &Rx, dec: &Decoder) -> bool {
+    let outs = receive_guarded(cx, "roundtrip", spec.ptype, &b.bytes, rx, dec);
+    let t = spec.ptype.name();
+    let detail = json!({"step": tag, "pn": spec.pn, "width": spec.width, "expected": spec.expected, "len": b.bytes.len()});
+    if outs.len() != 1 {
+        if !outs.is_empty() {
+            cx.violation(format!("C06.roundtrip.{t}:split"), format!("{tag}: one packet was parsed as {} packets: {:?}", outs.len(), outs), detail);
+        }
+        return false;
+    }
+    match &outs[0] {
+        Outcome::Ok(p) => {
+            let mut bad = vec![];
+            if p.ptype != spec.ptype {
+                bad.push(("type", format!("{:?}", p.ptype)));
+            }
+            if p.dcid != spec.dcid {
+                bad.push(("dcid", vcore::hex(&p.dcid)));
+            }
+            if spec.ptype.is_long() && p.scid != spec.scid {
+                bad.push(("scid", vcore::hex(&p.scid)));
+            }
+            if spec.ptype == PType::Initial && p.token != spec.token {
+                bad.push(("token", vcore::hex(&p.token)));
+            }
+            if spec.ptype == PType::OneRtt && p.spin != spec.spin {
+                bad.push(("spin", p.spin.to_string()));
+            }
+            if p.pn != spec.pn {
+                bad.push(("pn", p.pn.to_string()));
+            }
+            if p.body[..] != b.body[..] {
+                bad.push(("body", format!("{} bytes vs {} assembled", p.body.len(), b.body.len())));
+            }
+            if p.size != b.bytes.len() {
+                bad.push(("size", p.size.to_string()));
+            }
+            if let Some((f, got)) = bad.first() {
+                cx.violation(format!("C06.roundtrip.{t}:{f}"), format!("{tag}: recovered {f} = {got} differs from what was assembled ({} fields differ)", bad.len()), detail);
+                return false;
+            }
+            true
+        }
+        other => {
+            let kind = match other {
+                Outcome::Dropped => "dropped",
+                Outcome::ConnError(_) => "conn-error",
+                Outcome::ParseErr(_) => "parse-error",
+                Outcome::NoFrames => "no-frames",
+                _ => "key-unavailable",
+            };
+            cx.violation(format!("C06.roundtrip.{t}:{kind}"), format!("{tag}: unmodified packet was not recovered: {:?}", other), detail);
+            false
+        }
+    }
+}
+
+/// Unmodified or modified datagram that must NOT be delivered.
+fn check_rejected(cx: &mut Ctx, clause: &str, trig: &str, spec: &Spec, datagram: &[u8], rx: &Rx, dec: &Decoder, detail: Value) {
+    let outs = receive_guarded(cx, clause, spec.ptype, datagram, rx, dec);
+    for o in &outs {
+        match o {
+            Outcome::Ok(p) => {
+                let t = spec.ptype.name();
+                cx.violation(
+                    format!("C06.{clause}.{t}:{trig}"),
+                    format!("{clause}/{trig}: packet was accepted (type {:?}, pn {}, {} body bytes)", p.ptype, p.pn, p.body.len()),
+                    json!({"datagram": vcore::hex(datagram), "info": detail}),
+                );
+            }
+            Outcome::Dropped => cx.rep.count(&format!("{clause}_outcome_dropped")),
+            Outcome::ConnError(e) => {
+                cx.rep.count(&format!("{clause}_outcome_connection_error"));
+                if clause == "flip" {
+                    cx.rep.count("flip_connection_error_before_authentication(reserved bits)");
+                    if cx.strict_reserved {
+                        let t = spec.ptype.name();
+                        cx.violation(
+                            format!("C06.flip-conn-error.{t}:{trig}"),
+                            format!("one flipped bit ({trig}) turns an unauthenticated packet into a connection error: {e}"),
+                            json!({"datagram": vcore::hex(datagram), "info": detail}),
+                        );
+                    }
+                }
+            }
+            Outcome::ParseErr(_) => cx.rep.count(&format!("{clause}_outcome_unparseable")),
+            Outcome::NoFrames => cx.rep.count(&format!("{clause}_outcome_retry_or_vn(no frames)")),
+            Outcome::KeyUnavailable => cx.rep.count(&format!("{clause}_outcome_key_unavailable")),
+        }
+    }
+    if outs.is_empty() {
+        cx.rep.count(&format!("{clause}_outcome_nothing_parsed"));
+    }
+}
+
+fn flip_campaign(cx: &mut Ctx, rng: &mut Rng, spec: &Spec, b: &Built, rx: &Rx, dec: &Decoder) -> u64 {
+    let len = b.bytes.len();
+    let exhaustive = len < 400 || cx.thorough;
+    let mut bits: Vec<usize> = vec![];
+    if exhaustive {
+        bits.extend(0..len * 8);
+        cx.rep.count("packets_flipped_exhaustively");
+    } else {
+        let hdr_end = b.po + b.pn_len;
+        bits.extend(0..hdr_end * 8);
+        // the header-protection sample
+        bits.extend((b.po + 4) * 8..(b.po + 4 + 16) * 8);
+        bits.extend((len - 16) * 8..len * 8);
+        for _ in 0..256 {
+            bits.push(rng.range(hdr_end as u64 * 8, (len as u64 - 16) * 8 - 1) as usize);
+        }
+        bits.sort_unstable();
+        bits.dedup();
+        cx.rep.count("packets_flipped_sampled");
+    }
+    let mut d = b.bytes.clone();
+    for &bit in &bits {
+        d[bit / 8] ^= 1 << (bit % 8);
+        let reg = region(spec.ptype, b.po, b.pn_len, len, bit / 8);
+        check_rejected(cx, "flip", reg, spec, &d, rx, dec, json!({"bit": bit}));
+        d[bit / 8] ^= 1 << (bit % 8);
+        cx.rep.count(&format!("flips_in_{reg}"));
+    }
+    cx.rep.add("flips_evaluated", bits.len() as u64);
+    bits.len() as u64
+}
+
+fn wrong_pn_checks(cx: &mut Ctx, spec: &Spec, b: &Built, rx: &Rx) {
+    let win = 1u64 << (8 * spec.width);
+    let mut ctxs: Vec<(&str, Decoder)> = vec![("pn+1", Decoder::Fixed(spec.pn + 1))];
+    if spec.pn > 0 {
+        ctxs.push(("pn-1", Decoder::Fixed(spec.pn - 1)));
+    }
+    // a receiver whose expected pn is one window further reconstructs pn + window
+    if spec.pn + win < (1 << 62) {
+        ctxs.push(("expected+window", Decoder::Expected(spec.expected + win)));
+    }
+    if spec.expected >= win {
+        ctxs.push(("expected-window", Decoder::Expected(spec.expected - win)));
+    }
+    for (name, dec) in &ctxs {
+        if let Decoder::Expected(e) = dec {
+            let rec = encode_width(spec.pn, spec.width).decode(*e);
+            if rec == spec.pn {
+                continue; // context does not change the reconstructed number
+            }
+        }
+        check_rejected(cx, "wrong-pn", name, spec, &b.bytes, rx, dec, json!({"pn": spec.pn, "width": spec.width}));
+        cx.rep.count("wrong_pn_contexts_evaluated");
+    }
+}
+
+fn wire_check(cx: &mut Ctx, tag: &str, spec: &Spec, b: &Built, tx_keys: &DirectionalKeys, phase: KeyPhaseBit) -> bool {
+    let t = spec.ptype.name();
+    let detail = json!({"step": tag, "pn": spec.pn, "width": spec.width, "packet": vcore::hex(&b.bytes)});
+    match ref_open(&b.bytes, b.po, tx_keys, spec.pn) {
+        Err(e) => {
+            let c = if e.starts_with("aead") { "aead" } else { "header-protection" };
+            cx.violation(format!("C06.wire.{t}:{c}"), format!("{tag}: independent opener (rustls keys, RFC 9001 §5) cannot open the built packet: {e}"), detail);
+            false
+        }
+        Ok((first, pn_len, trunc, body)) => {
+            let mask = if spec.width == 8 { u64::MAX } else { (1u64 << (8 * spec.width)) - 1 };
+            let reserved = if spec.ptype.is_long() { first & 0x0c } else { first & 0x18 };
+            let mut bad = None;
+            if reserved != 0 {
+                bad = Some(("reserved-bits", format!("{first:#04x}")));
+            } else if pn_len != spec.width {
+                bad = Some(("pn-length", pn_len.to_string()));
+            } else if trunc != spec.pn & mask {
+                bad = Some(("truncated-pn", trunc.to_string()));
+            } else if !spec.ptype.is_long() && (first & 0x04 != 0) != (phase == KeyPhaseBit::One) {
+                bad = Some(("key-phase", format!("{first:#04x}")));
+            } else if !spec.ptype.is_long() && (first & 0x20 != 0) != spec.spin {
+                bad = Some(("spin", format!("{first:#04x}")));
+            } else if first & 0x40 == 0 {
+                bad = Some(("fixed-bit", format!("{first:#04x}")));
+            } else if body != b.body {
+                bad = Some(("body", format!("{} bytes", body.len())));
+            }
+            if let Some((f, got)) = bad {
+                cx.violation(format!("C06.wire.{t}:{f}"), format!("{tag}: wire image opened with rustls keys has {f} = {got}, assembled differently"), detail);
+                return false;
+            }
+            cx.rep.count("wire_images_opened_independently");
+            true
+        }
+    }
+}
+
+fn gen_cid(rng: &mut Rng, len: usize) -> Vec<u8> {
+    rng.bytes(len)
+}
+
+/// pn, width, expected, acked for a requested width (1..=4).
+fn gen_pn(rng: &mut Rng, width: usize) -> (u64, u64, Option<u64>) {
+    if width == 2 && rng.chance(1, 10) {
+        // the very first packet of a space: nothing sent, acked or received before
+        return (0, 0, Some(0));
+    }
+    // distance to the sender's largest acked, legal for this width (RFC 9000 §17.1: twice the distance must fit)
+    let max_delta: u64 = match width {
+        1 => 127,
+        2 => 32767,
+        3 => (1 << 23) - 1,
+        _ => (1 << 31) - 1,
+    };
+    let min_delta: u64 = match width {
+        1 | 2 => 1,
+        3 => 32768,
+        _ => 1 << 23,
+    };
+    let delta = match rng.below(4) {
+        0 => min_delta,
+        1 => max_delta,
+        _ => rng.range(min_delta, max_delta),
+    };
+    let acked = match rng.below(6) {
+        0 => 0,
+        1 => rng.below(300),
+        2 => rng.below(1 << 20),
+        3 => (1u64 << (8 * width as u64)).saturating_sub(rng.range(0, 3)) + rng.below(3), // around the width's wrap point
+        4 => (1u64 << 62) - 1 - delta - rng.below(1000),
+        _ => rng.next_u64() >> (2 + rng.below(50)),
+    };
+    let acked = acked.min((1u64 << 62) - 1 - delta);
+    let pn = acked + delta;
+    // receiver has received something in [acked, pn-1]
+    let largest_rcvd = match rng.below(3) {
+        0 => acked,
+        1 => pn - 1,
+        _ => rng.range(acked, pn - 1),
+    };
+    // use the library's own encoder when it yields this width
+    let use_encode = width >= 2 && PacketNumber::encode(pn, acked).size() == width;
+    (pn, largest_rcvd + 1, if use_encode && rng.chance(2, 3) { Some(acked) } else { None })
+}
+
+fn gen_body_len(rng: &mut Rng, overhead: usize, width: usize) -> usize {
+    let min = 4usize.saturating_sub(width).max(1);
+    let max = 1452usize.saturating_sub(overhead + width + 16).max(min);
+    match rng.below(8) {
+        0 => min,
+        1 => min + 1,
+        2 => max,
+        3 => max - rng.below(3.min(max as u64 - min as u64 + 1)) as usize,
+        4 => rng.range(min as u64, 40.min(max as u64)) as usize,
+        5 => rng.range(min as u64, 300.min(max as u64)) as usize,
+        _ => rng.range(min as u64, max as u64) as usize,
+    }
+}
+
+const TOKEN_LENS: [usize; 5] = [0, 1, 63, 64, 200];
+
+fn shape_hash(spec: &Spec, suite: &str, phase: KeyPhaseBit, updates: u64, blen: usize) -> u64 {
+    let s = format!(
+        "{}|{}|{}|{}|{}|{}|{}|{:?}|{}|{}",
+        spec.ptype.name(),
+        spec.dcid.len(),
+        spec.scid.len(),
+        spec.token.len(),
+        spec.width,
+        blen,
+        suite,
+        phase,
+        updates,
+        spec.mode
+    );
+    vcore::fnv_str(&s)
+}
+
+struct OneRttEnd {
+    hpk_local: Arc<dyn HeaderProtectionKey>,
+    hpk_remote: Arc<dyn HeaderProtectionKey>,
+    pk: ArcOneRttPacketKeys,
+}
+
+impl OneRttEnd {
+    fn of(k: &pktkeys::EndpointKeys) -> Self {
+        let (hl, pk) = k.one_rtt.get_local_keys().expect("1-RTT keys set");
+        let (hr, _) = k.one_rtt.remote_keys().expect("1-RTT keys set");
+        OneRttEnd { hpk_local: hl, hpk_remote: hr, pk }
+    }
+    fn tx(&self) -> (DirectionalKeys, KeyPhaseBit) {
+        let (phase, pk) = self.pk.lock_guard().get_local();
+        (DirectionalKeys { header: self.hpk_local.clone(), packet: pk }, phase)
+    }
+    fn rx(&self, dcid_len: usize) -> Rx {
+        Rx { dcid_len, one_rtt: Some((self.hpk_remote.clone(), self.pk.clone())), ..Default::default() }
+    }
+    fn phase(&self) -> KeyPhaseBit {
+        self.pk.lock_guard().get_local().0
+    }
+}
+
+fn observe(cx: &mut Ctx, spec: &Spec, b: &Built, suite: &str) {
+    let rep = &mut *cx.rep;
+    rep.count(&format!("packets_built_{}", spec.ptype.name()));
+    rep.set("pn_widths", spec.width as u64);
+    rep.set("dcid_lens", spec.dcid.len() as u64);
+    rep.set("scid_lens", spec.scid.len() as u64);
+    rep.set("packet_sizes", b.bytes.len() as u64);
+    if spec.ptype == PType::Initial {
+        rep.set("token_lens", spec.token.len() as u64);
+    }
+    rep.count(&format!("suite_{suite}"));
+    rep.count(&format!("writer_mode_{}", if spec.mode == 0 { "base_raw" } else { "qevent_frames" }));
+    rep.max("max_packet_size", b.bytes.len() as u64);
+    if spec.pn > 1 << 32 {
+        rep.count("packets_with_pn_above_2^32");
+    }
+    if b.bytes.len() - b.po == 20 {
+        rep.count("packets_at_sampling_minimum(20-byte payload)");
+    }
+}
+
+/// The full battery on one packet: wire image, round trip, flips, wrong pn.
+#[allow(clippy::too_many_arguments)]
+fn battery(
+    cx: &mut Ctx,
+    rng: &mut Rng,
+    tag: &str,
+    spec: &Spec,
+    tx_keys: &DirectionalKeys,
+    phase: KeyPhaseBit,
+    rx: &Rx,
+    suite: &str,
+    updates: u64,
+) -> Option<Built> {
+    let built = match vcore::panics::catch(|| build(spec, tx_keys.clone(), phase)) {
+        Ok(Ok(b)) => b,
+        Ok(Err(e)) => {
+            cx.rep.inconclusive(format!("{tag}: {e}"));
+            return None;
+        }
+        Err(p) => {
+            let loc = vcore::panics::short_location(&p.location);
+            cx.violation(
+                format!("C06.panic.build:{loc}"),
+                format!("{tag}: building a {} packet panicked: {} at {}", spec.ptype.name(), p.message, loc),
+                json!({"spec": format!("{spec:?}")}),
+            );
+            return None;
+        }
+    };
+    observe(cx, spec, &built, suite);
+    // production decoder when the numbers are small enough to materialise a receive journal
+    let journal = (spec.expected <= 4096).then(|| {
+        let j = ArcRcvdJournal::with_capacity(16, None);
+        if spec.expected > 0 {
+            j.on_rcvd_pn(spec.expected - 1, true, std::time::Duration::from_millis(100));
+        }
+        j
+    });
+    let dec = match &journal {
+        Some(j) => {
+            cx.rep.count("cases_decoded_by_real_rcvd_journal");
+            Decoder::Journal(j)
+        }
+        None => Decoder::Expected(spec.expected),
+    };
+    let w = wire_check(cx, tag, spec, &built, tx_keys, phase);
+    let r = check_roundtrip(cx, tag, spec, &built, rx, &dec);
+    if r {
+        cx.rep.count("roundtrips_ok");
+    }
+    if !(w && r) {
+        return Some(built);
+    }
+    reseal_checks(cx, tag, spec, &built, tx_keys, rx, &dec);
+    let n = flip_campaign(cx, rng, spec, &built, rx, &dec);
+    wrong_pn_checks(cx, spec, &built, rx);
+    if n > 0 {
+        cx.rep.distinct(shape_hash(spec, suite, phase, updates, built.body.len()));
+    }
+    // the campaign must not have disturbed the receiver: the genuine packet is still recovered
+    let outs = receive_guarded(cx, "after-flips", spec.ptype, &built.bytes, rx, &dec);
+    match outs.first() {
+        Some(Outcome::Ok(p)) if p.pn == spec.pn && p.body[..] == built.body[..] => cx.rep.count("genuine_packet_still_recovered_after_campaign"),
+        _ => cx.rep.count("genuine_packet_NOT_recovered_after_campaign(receiver state disturbed, C02 scope)"),
+    }
+    Some(built)
+}
+
+fn long_case(cx: &mut Ctx, rng: &mut Rng, hs: &Handshaken, ptype: PType) {
+    let dcid_len = cx.st.dcid_len;
+    let scid_len = cx.st.scid_len;
+    let dcid = gen_cid(rng, dcid_len);
+    let scid = gen_cid(rng, scid_len);
+    let token = if ptype == PType::Initial { rng.bytes(cx.st.token_len) } else { vec![] };
+    let width = cx.st.width;
+    let (pn, expected, acked) = gen_pn(rng, width);
+    let po = payload_offset(ptype, dcid_len, scid_len, token.len());
+    let blen = gen_body_len(rng, po, width);
+    let spec = Spec {
+        ptype,
+        dcid,
+        scid,
+        token,
+        spin: false,
+        pn,
+        width,
+        expected,
+        acked,
+        body: rng.bytes(blen),
+        slack: if rng.bool() { 0 } else { rng.range(1, 64) as usize },
+        mode: (rng.below(3) == 0) as u8,
+    };
+    let to_server = ptype == PType::ZeroRtt || rng.bool();
+    // the client's original DCID keys the Initial secrets of the whole connection
+    let n_odcid = rng.range(8, 20) as usize;
+    let odcid = rng.bytes(n_odcid);
+    let ic = pktkeys::initial_keys(&odcid, rustls::Side::Client);
+    let is = pktkeys::initial_keys(&odcid, rustls::Side::Server);
+    let (z_tx, z_rx) = pktkeys::directional_pair(&hs.quic_suite, &rng.bytes(32));
+    let (me, peer) = if to_server { (&hs.client, &hs.server) } else { (&hs.server, &hs.client) };
+    let (tx_keys, other_dir) = match ptype {
+        PType::Initial => {
+            if to_server {
+                (ic.local.clone(), ic.remote.clone())
+            } else {
+                (is.local.clone(), is.remote.clone())
+            }
+        }
+        PType::ZeroRtt => (z_tx.clone(), pktkeys::directional_pair(&hs.quic_suite, &rng.bytes(32)).0),
+        _ => (me.handshake.local.clone(), me.handshake.remote.clone()),
+    };
+    let peer1 = OneRttEnd::of(peer);
+    let rx = Rx {
+        dcid_len,
+        initial: Some(if to_server { is.remote.clone() } else { ic.remote.clone() }),
+        zero_rtt: Some(z_rx),
+        handshake: Some(peer.handshake.remote.clone()),
+        one_rtt: Some((peer1.hpk_remote.clone(), peer1.pk.clone())),
+    };
+    let tag = format!("{} {}", ptype.name(), if to_server { "c->s" } else { "s->c" });
+    let suite = if ptype == PType::Initial { "aes128gcm" } else { hs.suite_name };
+    let Some(built) = battery(cx, rng, &tag, &spec, &tx_keys, KeyPhaseBit::Zero, &rx, suite, 0) else { return };
+    // wrong keys: the other direction's keys of the same level (reflection), another connection's keys
+    let dec = Decoder::Expected(spec.expected);
+    let mut rx2 = rx.clone();
+    match ptype {
+        PType::Initial => rx2.initial = Some(other_dir),
+        PType::ZeroRtt => rx2.zero_rtt = Some(other_dir),
+        _ => rx2.handshake = Some(other_dir),
+    }
+    check_rejected(cx, "wrong-key", "other-direction", &spec, &built.bytes, &rx2, &dec, json!({}));
+    let mut rx3 = rx.clone();
+    let foreign = pktkeys::initial_keys(&rng.bytes(8), if to_server { rustls::Side::Server } else { rustls::Side::Client }).remote;
+    match ptype {
+        PType::Initial => rx3.initial = Some(foreign),
+        PType::ZeroRtt => rx3.zero_rtt = Some(foreign),
+        _ => rx3.handshake = Some(foreign),
+    }
+    check_rejected(cx, "wrong-key", "other-connection", &spec, &built.bytes, &rx3, &dec, json!({}));
+    // keys of another encryption level presented for this type
+    let mut rx4 = rx.clone();
+    match ptype {
+        PType::Initial => rx4.initial = rx.handshake.clone(),
+        PType::ZeroRtt => rx4.zero_rtt = rx.handshake.clone(),
+        _ => rx4.handshake = rx.initial.clone(),
+    }
+    check_rejected(cx, "wrong-key", "other-level", &spec, &built.bytes, &rx4, &dec, json!({}));
+    cx.rep.add("wrong_key_presentations", 3);
+}
+
+fn short_spec(cx: &Ctx, rng: &mut Rng, width: usize, pn_floor: u64) -> Spec {
+    let dcid_len = cx.st.dcid_len;
+    let (mut pn, mut expected, mut acked) = gen_pn(rng, width);
+    if pn <= pn_floor {
+        // keep numbers increasing within a connection
+        let shift = pn_floor + 1;
+        pn += shift;
+        expected += shift;
+        acked = acked.map(|a| a + shift);
+    }
+    let po = 1 + dcid_len;
+    let blen = gen_body_len(rng, po, width);
+    Spec {
+        ptype: PType::OneRtt,
+        dcid: vec![],
+        scid: vec![],
+        token: vec![],
+        spin: rng.bool(),
+        pn,
+        width,
+        expected,
+        acked,
+        body: rng.bytes(blen),
+        slack: if rng.bool() { 0 } else { rng.range(1, 64) as usize },
+        mode: (rng.below(3) == 0) as u8,
+    }
+}
+
+/// Bring both ends through `n` complete key updates using real packets (initiator updates, the
+/// peer follows on receipt, answers, both retire the old generation).
+fn advance_generations(cx: &mut Ctx, rng: &mut Rng, a: &OneRttEnd, b: &OneRttEnd, dcid: &[u8], n: u64, pn: &mut u64) -> bool {
+    for g in 0..n {
+        let (ini, fol) = if g % 2 == 0 { (a, b) } else { (b, a) };
+        ini.pk.lock_guard().update();
+        for (from, to, step) in [(ini, fol, "update-announce"), (fol, ini, "update-answer")] {
+            *pn += 1 + rng.below(3);
+            let mut s = short_spec(cx, rng, 2, 0);
+            s.dcid = dcid.to_vec();
+            s.pn = *pn;
+            s.expected = *pn;
+            s.acked = None;
+            s.body = rng.bytes(24);
+            let (k, ph) = from.tx();
+            let Ok(bu) = build_g(cx, &s, k, ph) else { return false };
+            if !check_roundtrip(cx, &format!("keyupdate gen {} {step}", g + 1), &s, &bu, &to.rx(dcid.len()), &Decoder::Expected(s.expected)) {
+                return false;
+            }
+        }
+        if ini.phase() != fol.phase() {
+            cx.violation("C06.keyupdate:phase-desync".into(), format!("after update {} the two ends are in different key phases", g + 1), json!({}));
+            return false;
+        }
+        ini.pk.lock_guard().phase_out();
+        fol.pk.lock_guard().phase_out();
+        cx.rep.count("key_generations_advanced_by_real_packets");
+    }
+    true
+}
+
+fn short_case(cx: &mut Ctx, rng: &mut Rng, hs: &Handshaken) {
+    let to_server = rng.bool();
+    let (me, peer) = if to_server { (&hs.client, &hs.server) } else { (&hs.server, &hs.client) };
+    let a = OneRttEnd::of(me);
+    let b = OneRttEnd::of(peer);
+    let width = cx.st.width;
+    let updates = cx.st.updates;
+    let mut spec = short_spec(cx, rng, width, 100);
+    spec.dcid = gen_cid(rng, cx.st.dcid_len);
+    let mut pn0 = 0u64;
+    if !advance_generations(cx, rng, &a, &b, &spec.dcid, updates, &mut pn0) {
+        return;
+    }
+    let (tx_keys, phase) = a.tx();
+    let rx = b.rx(spec.dcid.len());
+    cx.rep.count(&format!("one_rtt_cases_phase_{}", if phase == KeyPhaseBit::One { 1 } else { 0 }));
+    let tag = format!("1rtt {} after {updates} updates", if to_server { "c->s" } else { "s->c" });
+    let Some(built) = battery(cx, rng, &tag, &spec, &tx_keys, phase, &rx, hs.suite_name, updates) else { return };
+    let dec = Decoder::Expected(spec.expected);
+    // reflection: the sender's own receive keys
+    check_rejected(cx, "wrong-key", "other-direction", &spec, &built.bytes, &a.rx(spec.dcid.len()), &dec, json!({}));
+    // next-generation packet key but the current phase bit (a sender that forgot to toggle)
+    let mut sec = me.secrets.clone();
+    let mut next = sec.next_packet_keys();
+    for _ in 0..updates {
+        next = sec.next_packet_keys();
+    }
+    let k2 = DirectionalKeys { header: a.hpk_local.clone(), packet: Arc::from(next.local) };
+    if let Ok(b2) = build_g(cx, &spec, k2.clone(), phase) {
+        check_rejected(cx, "wrong-key", "next-generation-same-phase", &spec, &b2.bytes, &rx, &dec, json!({}));
+        // sanity of the harness: with the toggled phase bit this IS the legitimate next generation
+        if let Ok(b3) = build_g(cx, &spec, k2, !phase) {
+            let fresh = Decoder::Expected(spec.expected);
+            if check_roundtrip(cx, "next generation with toggled phase", &spec, &b3, &rx, &fresh) {
+                cx.rep.count("peer_initiated_updates_followed");
+            }
+        }
+    }
+    // keys of a different connection
+    if let Ok(other) = pktkeys::handshake(rng.usize(3)) {
+        let o = OneRttEnd::of(if to_server { &other.server } else { &other.client });
+        check_rejected(cx, "wrong-key", "other-connection", &spec, &built.bytes, &o.rx(spec.dcid.len()), &dec, json!({}));
+    }
+    cx.rep.add("wrong_key_presentations", 3);
+}
+
+/// Scripted key-update scenario on one connection.
+fn keyupdate_case(cx: &mut Ctx, rng: &mut Rng, hs: &Handshaken) {
+    let c = OneRttEnd::of(&hs.client);
+    let s = OneRttEnd::of(&hs.server);
+    let n_dcid = rng.below(21) as usize;
+    let dcid = gen_cid(rng, n_dcid);
+    let production_like = cx.st.production_like; // production never calls phase_out()
+    let gens = rng.range(1, 4);
+    let mut pn = rng.below(1000);
+    let mk = |cx: &Ctx, rng: &mut Rng, pn: u64| {
+        let w = 2 + rng.usize(3);
+        let mut sp = short_spec(cx, rng, w, 0);
+        sp.dcid = dcid.clone();
+        sp.pn = pn;
+        sp.expected = pn.saturating_sub(rng.below(3));
+        sp.acked = None;
+        sp
+    };
+    // generation 0
+    let sp = mk(cx, rng, pn);
+    let (k0, ph0) = c.tx();
+    let Ok(b0) = build_g(cx, &sp, k0.clone(), ph0) else { return };
+    if !check_roundtrip(cx, "keyupdate: before any update", &sp, &b0, &s.rx(dcid.len()), &Decoder::Expected(sp.expected)) {
+        return;
+    }
+    let mut old = (k0, ph0);
+    for g in 1..=gens {
+        c.pk.lock_guard().update();
+        let (k, ph) = c.tx();
+        if ph == old.1 {
+            cx.violation("C06.keyupdate:phase-not-toggled".into(), "update() did not toggle the sender's key phase".into(), json!({"gen": g}));
+            return;
+        }
+        pn += 1 + rng.below(5);
+        let sp = mk(cx, rng, pn);
+        let Ok(b1) = build_g(cx, &sp, k.clone(), ph) else { return };
+        if !wire_check(cx, "keyupdate: first packet of new phase", &sp, &b1, &k, ph) {
+            return;
+        }
+        let ok = {
+            let outs = vcore::panics::catch(|| receive(&b1.bytes, &s.rx(dcid.len()), &Decoder::Expected(sp.expected))).unwrap_or_default();
+            matches!(outs.first(), Some(Outcome::Ok(p)) if p.pn == sp.pn && p.body[..] == b1.body[..])
+        };
+        if !ok {
+            if production_like && g >= 2 {
+                cx.violation(
+                    "C06.keyupdate.second-update:old-keys-never-retired".into(),
+                    format!(
+                        "peer's key update #{g}: the first packet of the new generation is not recovered by decrypt_short_packet/get_remote \
+                         (the slot of the phase still holds generation {} keys; no production code calls phase_out())",
+                        g - 2
+                    ),
+                    json!({"gen": g, "production_like": true}),
+                );
+            } else {
+                cx.violation(format!("C06.keyupdate:generation-not-followed"), format!("first packet of generation {g} not recovered"), json!({"gen": g, "production_like": production_like}));
+            }
+            return;
+        }
+        cx.rep.count("keyupdate_new_phase_roundtrips");
+        if s.phase() != ph {
+            cx.violation("C06.keyupdate:receiver-phase".into(), format!("receiver did not follow to key phase {ph:?}"), json!({"gen": g}));
+            return;
+        }
+        // reverse direction under the new generation
+        pn += 1;
+        let spr = mk(cx, rng, pn);
+        let (kr, phr) = s.tx();
+        let Ok(br) = build_g(cx, &spr, kr, phr) else { return };
+        if !check_roundtrip(cx, "keyupdate: answer in new phase", &spr, &br, &c.rx(dcid.len()), &Decoder::Expected(spr.expected)) {
+            return;
+        }
+        if c.phase() != ph {
+            cx.violation("C06.keyupdate:initiator-phase".into(), "initiator changed phase again on the peer's answer".into(), json!({"gen": g}));
+            return;
+        }
+        // a reordered packet of the previous phase, before the old keys are retired
+        pn += 1;
+        let spo = mk(cx, rng, pn);
+        let Ok(bo) = build_g(cx, &spo, old.0.clone(), old.1) else { return };
+        if check_roundtrip(cx, "keyupdate: reordered old-phase packet before phase_out", &spo, &bo, &s.rx(dcid.len()), &Decoder::Expected(spo.expected)) {
+            cx.rep.count("keyupdate_old_phase_roundtrips_before_phase_out");
+        } else {
+            return;
+        }
+        // flips on the new-phase packet must be rejected as well
+        if g == 1 {
+            flip_campaign(cx, rng, &sp, &b1, &s.rx(dcid.len()), &Decoder::Expected(sp.expected));
+        }
+        if !production_like {
+            c.pk.lock_guard().phase_out();
+            s.pk.lock_guard().phase_out();
+            // old phase after phase-out must be rejected
+            if g == gens {
+                pn += 1;
+                let spx = mk(cx, rng, pn);
+                if let Ok(bx) = build_g(cx, &spx, old.0.clone(), old.1) {
+                    check_rejected(cx, "keyupdate", "old-phase-after-phase-out", &spx, &bx.bytes, &s.rx(dcid.len()), &Decoder::Expected(spx.expected), json!({"gen": g}));
+                    cx.rep.count("keyupdate_old_phase_after_phase_out_presented");
+                }
+            }
+        }
+        old = (k, ph);
+    }
+    cx.rep.count(if production_like { "keyupdate_scenarios_without_phase_out" } else { "keyupdate_scenarios_with_phase_out" });
+    cx.rep.distinct(vcore::fnv_str(&format!("ku|{}|{}|{}|{}", dcid.len(), gens, production_like, hs.suite_name)));
+}
+
+/// Initial + Handshake + 1-RTT coalesced in one datagram, as `Burst::load_spaces` lays them out.
+fn coalesced_case(cx: &mut Ctx, rng: &mut Rng, hs: &Handshaken) {
+    let (n_d, n_s) = (rng.below(21) as usize, rng.below(21) as usize);
+    let dcid = gen_cid(rng, n_d);
+    let scid = gen_cid(rng, n_s);
+    let odcid = rng.bytes(8);
+    let ic = pktkeys::initial_keys(&odcid, rustls::Side::Client);
+    let is = pktkeys::initial_keys(&odcid, rustls::Side::Server);
+    let c1 = OneRttEnd::of(&hs.client);
+    let s1 = OneRttEnd::of(&hs.server);
+    let mut datagram = vec![];
+    let mut parts = vec![];
+    for ptype in [PType::Initial, PType::Handshake, PType::OneRtt] {
+        let width = 1 + rng.usize(4);
+        let (pn, expected, acked) = gen_pn(rng, width);
+        let n_tok = *rng.pick(&TOKEN_LENS);
+        let n_body = rng.range(3, 300) as usize;
+        let spec = Spec {
+            ptype,
+            dcid: dcid.clone(),
+            scid: scid.clone(),
+            token: if ptype == PType::Initial { rng.bytes(n_tok) } else { vec![] },
+            spin: rng.bool(),
+            pn,
+            width,
+            expected,
+            acked,
+            body: rng.bytes(n_body),
+            slack: 0,
+            mode: rng.below(2) as u8,
+        };
+        let (k, ph) = match ptype {
+            PType::Initial => (ic.local.clone(), KeyPhaseBit::Zero),
+            PType::Handshake => (hs.client.handshake.local.clone(), KeyPhaseBit::Zero),
+            _ => c1.tx(),
+        };
+        let Ok(b) = build_g(cx, &spec, k, ph) else { return };
+        datagram.extend_from_slice(&b.bytes);
+        parts.push((spec, b));
+    }
+    let rx = Rx {
+        dcid_len: dcid.len(),
+        initial: Some(is.remote.clone()),
+        zero_rtt: None,
+        handshake: Some(hs.server.handshake.remote.clone()),
+        one_rtt: Some((s1.hpk_remote.clone(), s1.pk.clone())),
+    };
+    // each space has its own pn context: decode each with its own expected
+    let mut ok = 0;
+    for (i, (spec, b)) in parts.iter().enumerate() {
+        let outs = vcore::panics::catch(|| receive(&datagram, &rx, &Decoder::Expected(spec.expected))).unwrap_or_default();
+        match outs.get(i) {
+            Some(Outcome::Ok(p)) if p.ptype == spec.ptype && p.pn == spec.pn && p.body[..] == b.body[..] && p.dcid == spec.dcid => ok += 1,
+            other => {
+                cx.violation(
+                    format!("C06.roundtrip.coalesced:{}", spec.ptype.name()),
+                    format!("packet {i} ({}) of a coalesced datagram not recovered: {:?}", spec.ptype.name(), other.map(|o| format!("{o:?}").chars().take(200).collect::<String>())),
+                    json!({"datagram": vcore::hex(&datagram)}),
+                );
+            }
+        }
+    }
+    if ok == 3 {
+        cx.rep.count("coalesced_datagrams_recovered");
+        cx.rep.distinct(vcore::fnv_str(&format!("co|{}|{}|{}", dcid.len(), scid.len(), datagram.len())));
+    }
+}
+
+fn run_case(rep: &mut Report, idx: u64, case_seed: u64, thorough: bool, strict_reserved: bool) {
+    let mut rng = Rng::new(case_seed);
+    let st = strata(idx);
+    let hs = match pktkeys::handshake(st.suite) {
+        Ok(h) => h,
+        Err(e) => {
+            rep.inconclusive(format!("rustls handshake failed: {e}"));
+            return;
+        }
+    };
+    rep.count("handshakes_completed");
+    let mut cx = Ctx { st, rep, idx, case_seed, thorough, strict_reserved };
+    // kinds: 0 Initial, 1 0-RTT, 2 Handshake, 3/4 1-RTT, and every 10th case a scenario
+    match st.kind {
+        9 => keyupdate_case(&mut cx, &mut rng, &hs),
+        19 => coalesced_case(&mut cx, &mut rng, &hs),
+        k => match k % 5 {
+            0 => long_case(&mut cx, &mut rng, &hs, PType::Initial),
+            1 => long_case(&mut cx, &mut rng, &hs, PType::ZeroRtt),
+            2 => long_case(&mut cx, &mut rng, &hs, PType::Handshake),
+            _ => short_case(&mut cx, &mut rng, &hs),
+        },
+    }
+    rep.evaluations += 1;
+}
+
+fn case_seed(seed: u64, idx: u64) -> u64 {
+    Rng::new(seed ^ 0xc06).fork(idx).next_u64()
+}
+
+pub fn run(args: &Args, rep: &mut Report) {
+    rep.rule = "case = one connection (real rustls handshake) + one protected packet (or one key-update / coalescing scenario); \
+                distinct = distinct (type, DCID len, SCID len, token len, pn width, body len, cipher suite, key phase, #updates, writer) shapes; \
+                non-trivial = the packet round-tripped bit-exactly, its wire image was opened by the independent opener and a bit-flip campaign ran on it"
+        .into();
+    let strict = args.flag("strict-reserved");
+    if let Some(path) = args.get("replay") {
+        let v: Value = serde_json::from_str(&std::fs::read_to_string(path).unwrap()).unwrap();
+        let v = if v.get("replay").is_some() { v["replay"].clone() } else { v };
+        run_case(rep, v["idx"].as_u64().unwrap(), v["case_seed"].as_u64().unwrap(), v["thorough"].as_bool().unwrap_or(false), strict);
+        return;
+    }
+    let thorough = args.get("tier") == Some("thorough");
+    let shard = args.u64("shard", 0);
+    let shards = args.u64("shards", 1);
+    let n = args.budget(if thorough { 8_000 } else { 3_500 });
+    let seed = args.seed();
+    // case indices are global: shard i runs idx = i, i+shards, ... so the stratification (type, CID lengths,
+    // token lengths, widths) is covered jointly by all shards
+    let mut idx = shard;
+    let mut done = 0;
+    while done < n {
+        run_case(rep, idx, case_seed(seed, idx), thorough, strict);
+        if done < 3 {
+            rep.sample(json!({"idx": idx, "strata": format!("{:?}", strata(idx)), "violations_so_far": rep.n_violations()}));
+        }
+        idx += shards;
+        done += 1;
+    }
+    rep.add("cases", n);
 }
